@@ -111,6 +111,15 @@ class Cmp(object):
 
 vcmp = np.vectorize(Cmp)
 
+def _has_nan(values):
+    for value in values:
+        if isinstance(value, (tuple, list)):
+            if _has_nan(value):
+                return True
+        elif isinstance(value, (float, np.floating)) and value != value:
+            return True
+    return False
+
 def sort(iterable):
     """
     implements sorting allowing for comparing of not-same-type objects
@@ -133,6 +142,9 @@ def sort(iterable):
     >>> sort([1,3,2,None]) == [None, 1, 2, 3]
 
     """
+    iterable = list(iterable)
+    if _has_nan(iterable): ## python's native order is not a total order once a nan is involved
+        return sorted(iterable, key = Cmp)
     try:
         return sorted(iterable)
     except TypeError:
